@@ -69,9 +69,9 @@ def main():
         os.makedirs(dst)
         for f in os.listdir(src):
             p = os.path.join(src, f)
-            if os.path.isfile(p) and os.path.getsize(p) < 300000 and not f.endswith(".log"):
+            if os.path.isfile(p) and os.path.getsize(p) < 300000 and not f.endswith(".log") and not f.startswith("check_"):
                 shutil.copy2(p, dst)
-        r = res.get("seeded/" + name) or res.get(src) or {}
+        r = res.get("%s/mut_%s" % (pid, name.split("-", 1)[1])) or res.get(src) or {}
         v = ver.get(src, {})
         detected = bool(r.get("violations")) and r.get("exit") == 1
         meta = {
